@@ -196,13 +196,13 @@ struct _table_arm64 table_arm64[] =
   // C3.3.13 Load/store register (unsigned immediate).
   { "strb",      0x39000000, 0xfbe00000, 3, 'w', OP_LD_ST_IMM },
   { "strh",      0x79000000, 0xfbe00000, 3, 'w', OP_LD_ST_IMM },
-  { "str",       0xb9000000, 0xfbe00000, 3, '0', OP_LD_ST_IMM },
+  { "str",       0xb9000000, 0xbbe00000, 3, '0', OP_LD_ST_IMM },
   { "strh",      0x79000000, 0xfbe00000, 3, 'w', OP_LD_ST_IMM },
   { "ldrb",      0x39400000, 0xfbe00000, 3, 'w', OP_LD_ST_IMM },
   { "ldrsb",     0x39400000, 0xfbe00000, 3, '0', OP_LD_ST_IMM },
   { "ldrh",      0x79400000, 0xfbe00000, 3, 'w', OP_LD_ST_IMM },
   { "ldrsh",     0x79400000, 0xfbe00000, 3, '0', OP_LD_ST_IMM },
-  { "ldr",       0xb9400000, 0xfbe00000, 3, '0', OP_LD_ST_IMM },
+  { "ldr",       0xb9400000, 0xbbe00000, 3, '0', OP_LD_ST_IMM },
 
   // C3.4.6 PC-rel addressing.
   { "adr",       0x10000000, 0x9f000000, 2, 'x', OP_REG_RELATIVE },
